@@ -5,6 +5,7 @@ package c19
 
 import (
 	"fmt"
+	"github.com/unixpickle/model3d/model3d"
 	"math"
 	"math/rand"
 	"sort"
@@ -45,6 +46,20 @@ func (m Mat) Build() render3d.Material {
 	case "hg":
 		return &render3d.HGMaterial{G: m.G, ScatterColor: m3.C3(m.Spec), IgnoreNormals: m.IgnoreNormals}
 	case "refract":
+		if math.Float64bits(m.Index)%3 == 0 {
+			// a material that has been used already with another index (a scene edited between two renders), or a
+			// copy of such a material: what it does follows its fields as they are now
+			used := &render3d.RefractMaterial{IndexOfRefraction: 1 + (m.Index-1)*0.37 + 0.11, RefractColor: m3.C3(m.Diff), SpecularColor: m3.C3(m.Spec)}
+			n, d := model3d.Z(1), model3d.XYZ(0.3, 0.2, 0.933)
+			used.BSDF(n, d.Scale(-1), d)
+			used.SourceDensity(n, d.Scale(-1), d)
+			used.IndexOfRefraction = m.Index
+			if math.Float64bits(m.Index)%6 == 0 {
+				cp := *used
+				return &cp
+			}
+			return used
+		}
 		return &render3d.RefractMaterial{IndexOfRefraction: m.Index, RefractColor: m3.C3(m.Diff), SpecularColor: m3.C3(m.Spec)}
 	case "joined":
 		j := &render3d.JoinedMaterial{Probs: append([]float64(nil), m.Probs...)}
